@@ -84,6 +84,11 @@ func (en *engine) judge(c *ev.Case, clause string, pl plan, val reflect.Value) s
 	}
 	en.tripsBy[pl.src]++
 	m := o.manner()
+	if pl.send != nil && pl.send.mode == sendClientThenReq && pl.src.isText() {
+		// merge of client-level and request-level parameters: not stated anywhere, only counted
+		e.Stat("client_then_request_struct|"+sourceName[pl.src]+"|"+map[bool]string{true: "bound-the-request-level-value", false: "bound-something-else"}[m == ""], 1)
+		return ""
+	}
 	if m == "" {
 		if o.status != 200 {
 			e.Violation(c, clause+"|"+sourceName[pl.src]+"|status-not-200-after-successful-bind",
@@ -133,6 +138,10 @@ func (en *engine) report(c *ev.Case, clause string, p *probe, o *outcome, split 
 			if p.send.mode == sendAdders {
 				det["adder_calls"] = p.send.calls(p)
 			}
+			if p.send.filler.IsValid() {
+				det["first_struct"] = renderStruct(p.typ, p.send.filler)
+				det["note"] = "the setter was called with first_struct and then with sent; sent alone round-trips"
+			}
 			if p.diff != nil {
 				det["first_difference_at"] = p.diff.Path
 				det["got"] = p.got
@@ -144,7 +153,7 @@ func (en *engine) report(c *ev.Case, clause string, p *probe, o *outcome, split 
 				det["client_error"] = o.sendErr
 			}
 			e.Violation(c, clause+"|"+sourceName[p.src]+"|sent-with-"+how+"|"+cls,
-				fmt.Sprintf("client (%s) -> %s -> Bind().%s: per key, the bound values are not what was added in the order it was added (%s)",
+				fmt.Sprintf("client (%s) -> %s -> Bind().%s: the server did not bind what the client was last told to send (%s)",
 					how, sourceName[p.src], opTitle(p.op), m), det)
 			return
 		}
@@ -196,7 +205,6 @@ func trim(s string, n int) string {
 func run(e *ev.Env) {
 	en := &engine{e: e, g: newRigs()}
 	defer en.g.close()
-	defer removeTmpFile()
 	e.Note("domain", domainNote)
 	e.Note("sending", "text sources: the struct setters, or element-by-element AddParam/AddFormData/AddHeader/SetCookie calls (keys interleaved or together), or the map setters; multipart with 1-2 files via AddFileWithReader/AddFiles/AddFile, before or after the fields")
 	e.Note("nontrivial", "a round trip whose value has a string with a character outside [A-Za-z0-9] or a slice of length != 1; distinct by (source, splitting, value)")
@@ -355,7 +363,6 @@ func (en *engine) corpus() {
 func runRace(e *ev.Env) {
 	en := &engine{e: e, g: newRigs()}
 	defer en.g.close()
-	defer removeTmpFile()
 	e.Note("domain", domainNote)
 	e.Note("mode", "16 goroutines, each with its own app+listener+client and its own struct type, share the process-wide binder pools, schema decoder pools and schema type cache; a mismatch is re-run alone: if it also fails alone it is reported under the sequential signature, otherwise as race|...|concurrent-only")
 	const G = 16
@@ -400,6 +407,9 @@ func runRace(e *ev.Env) {
 					p := &probe{src: pl.src, op: pl.op, auto: pl.auto, typ: pl.typ, want: val, send: pl.send}
 					o := rg[g].get(pl.split).roundTrip(p)
 					trips[g]++
+					if pl.send != nil && pl.send.mode == sendClientThenReq {
+						continue // observed only (see judge)
+					}
 					if m := o.manner(); m != "" && len(fails[g]) < 3 {
 						fails[g] = append(fails[g], failure{pl, val, m})
 					}
